@@ -36,12 +36,7 @@ def case(draw):
     net = draw(gen_net.determined_network(noise=0, allow_cov=True))
     tol = draw(st.sampled_from([10, 30, 100, 1000, 1000, 7000]))
     net["params"]["tol-abs"] = tol
-    # steep terrain: the observed values are derived from the coordinates when the input is written (noise = 0), so the
-    # heights can be stretched before anything else is decided; slope and horizontal sight lengths then differ markedly
-    kz = draw(st.sampled_from([1, 1, 3, 8]))
-    if kz != 1 and net["dims"] != "2d":
-        for p in net["points"]:
-            p["H"] = round(200.0 + kz * (p["H"] - 200.0), 3)
+    # (steep terrain: determined_network stretches the heights in half of the 3D cases)
     # eligible observations
     elig = []
     for ci, cl in enumerate(net["clusters"]):
